@@ -646,19 +646,40 @@ Section MapState.
     end.
 End MapState.
 
-(** [OptChainVisitor]: default traversal everywhere, [visit_mut_expr] overridden for optional chains. *)
+(** [OptChainVisitor]: [visit_mut_expr] overridden for optional chains; only the spine of the
+    chain (callee / object links) is walked ([visit_mut_spine]). *)
 Fixpoint oc_visit (c : config) (fuel : nat) (n : node) (s : ocstate) {struct fuel}
   : option (node * ocstate) :=
   match fuel with
   | 0 => None
   | Datatypes.S f =>
-      let children n s :=
+      let spine n s :=
         match n with
-        | Node t cs =>
-            match map_st (oc_visit c f) cs s with
-            | Some (cs', s') => Some (Node t cs', s')
+        | Node (K KOptChain lo hi) [opt; Node (K KCall clo chi) [cx; callee; args; targs]] =>
+            match oc_visit c f callee s with
+            | Some (callee', s') =>
+                Some (Node (K KOptChain lo hi) [opt; Node (K KCall clo chi) [cx; callee'; args; targs]], s')
             | None => None
             end
+        | Node (K KOptChain lo hi) [opt; Node (K KMember mlo mhi) [obj; prop]] =>
+            match oc_visit c f obj s with
+            | Some (obj', s') =>
+                Some (Node (K KOptChain lo hi) [opt; Node (K KMember mlo mhi) [obj'; prop]], s')
+            | None => None
+            end
+        | Node (K KCall lo hi) [cx; callee; args; targs] =>
+            if is_kind KSuper callee || is_kind KImport callee then Some (n, s)
+            else
+              match oc_visit c f callee s with
+              | Some (callee', s') => Some (Node (K KCall lo hi) [cx; callee'; args; targs], s')
+              | None => None
+              end
+        | Node (K KMember lo hi) [obj; prop] =>
+            match oc_visit c f obj s with
+            | Some (obj', s') => Some (Node (K KMember lo hi) [obj'; prop], s')
+            | None => None
+            end
+        | _ => Some (n, s)
         end in
       match optchain_parts n with
       | Some (optional, base) =>
@@ -667,10 +688,10 @@ Fixpoint oc_visit (c : config) (fuel : nat) (n : node) (s : ocstate) {struct fue
               if is_kind KCall base then oc_call_from_base c base optional s
               else oc_member_from_base c base optional s in
             let n1 := match repl with Some r => r | None => n end in
-            if optional then Some (n1, s1) else children n1 s1
+            if optional then Some (n1, s1) else spine n1 s1
           else if oc_is_target c n then oc_visit c f n (oc_set_found s)
-          else children n s
-      | None => children n s
+          else spine n s
+      | None => spine n s
       end
   end.
 
@@ -916,6 +937,16 @@ Fixpoint block_visit (c : config) (fuel : nat) (n : node) (t : tstate) {struct f
             | Some (_, _) => None
             | None => None
             end
+      | Node (K KIdent lo hi) _ =>
+          (* visit_mut_ident: a user identifier with the reserved prefix anywhere cancels *)
+          match ident_sym n with
+          | Some sym =>
+              if negb (is_dummy (lo, hi)) && String.prefix (var_prefix c) sym
+                 && negb (status_eqb (t_status t) Cancelled)
+              then Some (n, t_cancel gen_cancel_reason t)
+              else Some (n, t)
+          | None => Some (n, t)
+          end
       | Node (K KArrow _ _) _ =>
           (* visit_mut_arrow_expr: an arrow reached by the block visitor lies outside every block *)
           children (if status_eqb (t_status t) Cancelled then n else arrow_transform n) t
